@@ -64,8 +64,11 @@ def lemma_obligations(ctx: Ctx, lem: api.Lemma):
     for cname, cargs in lem.calls:
         vals = [Pure(ctx, env).ev(_parse_spec(a)) for a in cargs]
         pc.append(lemma_instance(ctx, cname, vals))
-    for h in lem.hints:
-        pc.append(Pure(ctx, env).b(_parse_spec(h)))
+    for t in lem.terms:
+        v = Pure(ctx, env).ev(_parse_spec(t))
+        from .kinds import fresh as _fresh
+
+        pc.append(v.t == _fresh(v.kind, "term").t)  # introduces the term; constrains nothing
     obls = [Obl(f"lemma:{lem.name}/cover:requires-satisfiable", 0, tuple(pc), z3.BoolVal(True), "cover")]
     for i, e in enumerate(lem.ensures):
         obls.append(Obl(f"lemma:{lem.name}/ensures#{i}", 0, tuple(pc), Pure(ctx, env).b(_parse_spec(e)), "assert", e))
